@@ -55,6 +55,19 @@ pub fn nullif(left: &dyn Array, right: &BooleanArray) -> Result<ArrayRef, ArrowE
         return Ok(make_array(left_data));
     }
 
+    // Run-end encoded and union arrays have no validity buffer of their own: their nulls
+    // live in the child arrays. Attaching one would produce an invalid array whose rows
+    // still read as the original values.
+    if matches!(
+        left_data.data_type(),
+        DataType::RunEndEncoded(_, _) | DataType::Union(_, _)
+    ) {
+        return Err(ArrowError::NotYetImplemented(format!(
+            "nullif is not supported for {}",
+            left_data.data_type()
+        )));
+    }
+
     // left=0 (null)   right=null       output bitmap=null
     // left=0          right=1          output bitmap=null
     // left=1 (set)    right=null       output bitmap=set   (passthrough)
@@ -604,5 +617,17 @@ mod tests {
         )
         .as_boolean()
         .clone()
+    }
+
+    #[test]
+    fn test_nullif_run_end_encoded_not_supported() {
+        use arrow_array::RunArray;
+        let run_ends = Int32Array::from(vec![2, 4]);
+        let values = Int32Array::from(vec![10, 20]);
+        let run_array = RunArray::<Int32Type>::try_new(&run_ends, &values).unwrap();
+        let mask = BooleanArray::from(vec![true, false, false, true]);
+        // must not silently return the input rows unchanged
+        let err = nullif(&run_array, &mask).unwrap_err();
+        assert!(matches!(err, ArrowError::NotYetImplemented(_)), "{err}");
     }
 }
